@@ -793,6 +793,10 @@ public:
           }
           const int holder = lock_holder(&(*source_locks)[(size_t)block]);
           ++stats["source_lock_checks"];
+          if (getenv("EION_DEBUG_LOCKS"))
+            fprintf(stderr, "launch id %llu fiber %d block %ld holder %d nblocks %zu\n",
+                    (unsigned long long)id, current_fiber(), block, holder,
+                    source_locks->size());
           if (holder != current_fiber()) {
             fail("lock-not-held",
                  sfmt("packet %llu launched by thread %d into continuous "
